@@ -634,6 +634,23 @@ Section Parser.
   Definition multi_doc_error (line : nat) : perror :=
     {| pe_line := line; pe_msg := "multi-document YAML files are not allowed" |}.
 
+  (** aliasExpansion (fix 2108dfa, both modes): the number of nodes of the tree the document unfolds to when every alias is
+      replaced by its anchor, saturating just above the limit (the Go code memoises per node; on the inlined unfolding
+      the value of a node is a function of its subtree).  A document above the limit is refused. *)
+  Definition max_alias_expansion : N := 1000000.
+
+  Fixpoint alias_expansion (n : node) {struct n} : N :=
+    (fix go (l : list node) (total : N) : N :=
+       match l with
+       | [] => total
+       | c :: r => if N.ltb max_alias_expansion total then total else go r (total + alias_expansion c)%N
+       end) (n_content n) (1 + match n_alias n with Some t => alias_expansion t | None => 0 end)%N.
+
+  Definition too_big (d : node) : bool := N.ltb max_alias_expansion (alias_expansion d).
+
+  Definition too_big_error (d : node) : perror :=
+    {| pe_line := n_line d; pe_msg := "yaml aliases of this document expand to more than 1000000 nodes" |}.
+
   (** The two strict-mode pre-passes of Parser.Parse (fixes b9483ac, e113542): depth-first search, the node itself, then
       its alias target, then its content (the Go code skips nodes it has already seen; on the inlined unfolding of the
       alias graph a second visit of a subtree finds nothing the first visit did not return). *)
@@ -690,6 +707,8 @@ Section Parser.
             | None => {| f_groups := groups; f_error := err |}
             end
     | (d, nl) :: r =>
+        if too_big d then {| f_groups := groups; f_error := Some (too_big_error d) |}
+        else
         match strict_prepass d with
         | Some e => {| f_groups := groups; f_error := Some e |}
         | None =>
@@ -712,6 +731,8 @@ Section Parser.
     match ds with
     | [] => Some {| f_groups := groups; f_error := yerr |}
     | (d, nl) :: r =>
+        if too_big d then Some {| f_groups := groups; f_error := Some (too_big_error d) |}
+        else
         match parse_node (doc_fuel d) (firstn nl all_lines) 0 d None None with
         | None => None
         | Some gs => parse_relaxed_loop all_lines r yerr (app groups gs)
